@@ -37,6 +37,12 @@ CHECKS = {
     "C19": dict(engine="Convert", ref="5/C19",
                 text="TLC enumerates every conversion and alignment case as a state of spec/Convert.tla (array shape x event rank x named subset of batch dims incl. a name left of the array; funsor x name_to_dim; tensor x every (partial) permutation of up to 4 inputs; align_tensor(s); lazy term, Contraction, Delta, Gaussian x permutations; materialize) and checks on each, as invariants, that implementation-shaped models transcribed from tensor_to_funsor, tensor_to_data, Tensor.align, align_tensor, Contraction/Delta/Gaussian.align and materialize refine the denotational definitions (value at a name assignment = array element at the named coordinates), reject exactly the non-convertible cases, and are mutually inverse up to size-1 batch dimensions. Every case is emitted with position-coded contents and its expected projection and replayed into the real API (to_funsor, to_data, round trips, align, align_tensor(s), materialize; float and bounded-integer dtypes): inputs, input order after align, output, data layout and the value at every named point must equal TLC's expectation. Exhaustive below the bounds.",
                 note="trusted: TLC, Values/Sem.tla, the transcription in Convert.tla (bound by per-case replay), harness/convdriver.py argument construction and numpy indexing; bounds: quick ranks 0-4, thorough ranks 0-5, sizes 1-3 (1-4 in thorough), event ranks 0-2, align of tensors with <=4 inputs; lazy/Contraction/Delta over a fixed list of base terms with full permutations only; numpy backend; one open finding (Delta.align on batched points raises)"),
+    "C10": dict(engine="Markov", ref="5/C10",
+                text="spec/Markov.tla enumerates transition tensors (durations 1..12, 1-2 previous/current pairs of sizes 2-3, with/without batch input, with/without time dependence) and computes the explicit left fold over time as a chain of L1 terms evaluated exactly (each step: sum over the interior state of acc(curr:=m) x trans(time=t)(prev:=m)). The harness runs sequential_sum_product, naive_sequential_sum_product, mixed_sequential_sum_product for EVERY num_segments 1..T, MarkovProduct (eager, and built lazily then reinterpreted) and compares every value; the scan run under `lazy` emits a term (slices, cats, contractions, renamings) that TLC (Judge.tla) evaluates against the fold. Lag problems (spec/MarkovLag.tla: lag sets over {1,2,3}, durations, period counts): the term the naive algorithm builds under `lazy` is evaluated by TLC and sarkka_bilmes_product's value (and the naive eager value) compared with it.",
+                note="trusted as C01/C02; an AssertionError/decline is accepted (transitions constant in time with odd duration are rejected by Cat); bounds: sizes 2-3, T<=12 (T<=7 for size 3, lags: T<=7 quick / 9 thorough), 3 semirings quick (5 thorough); free real parameters not yet covered"),
+    "C17": dict(engine="InterpStack", ref="5/C17",
+                text="TLC exhaustively explores spec/InterpStack.tla (stack of prioritised frames with atomic Memoize items, open lexical blocks with entry snapshots, propagating exception) over all 9 interpretation kinds as with-blocks and decorators, nesting depth <= 4 (quick) / 5 (thorough), an exception injected at every position, sibling blocks and the priority-list overflow in __enter__, and checks Restore, BaseNeverPopped and Innermost (frame layering = lexical scoping) in the model. Every reachable state is emitted with its history; every maximal history is executed against funsor with real with-statements, decorated calls and raised exceptions, comparing after every step the repr of every frame of funsor.interpreter._STACK and the class / recording tapes of probe terms with TLC's expectations. A seeded sample of the same runs is recorded as push/pop/probe traces from a logging _STACK and validated by TLC with spec/Trace_InterpStack.tla (self-test: a dropped pop and a doubled push must be rejected).",
+                note="trusted: TLC, the Handles table of InterpFrames.tla (which rule table answers which of the 4 probes), repr() of interpretations, harness/stackdriver.py; bounds: depth <= 5 for chains, depth 3 and <= 4 entries for siblings, depth 8 for overflow, <= 2 raises; a new AdjointTape per entry; numpy backend; single-threaded"),
 }
 
 NOT_YET = "check not built yet in this round (planned, see DESIGN.md section 5)"
@@ -77,6 +83,10 @@ def main():
              "kind_free_text": "TLA+ laws over the recorded op tables + exact op grid / einsum generators (OpsMeaning, OpsGrid, OpsEinsum); replayed by harness/opsdriver.py"},
             {"name": "Convert", "path": "spec/Convert.tla", "serves_properties": ["C19"],
              "kind_free_text": "TLA+ denotational + implementation-shaped models of array<->funsor conversion and alignment; replayed by harness/convdriver.py"},
+            {"name": "Markov", "path": "spec/Markov.tla", "serves_properties": ["C10"],
+             "kind_free_text": "TLA+ enumeration of Markov-product problems with the left fold as oracle (plus spec/MarkovLag.tla); replayed by harness/modes.py:c10, emitted scan terms judged by Judge.tla"},
+            {"name": "InterpStack", "path": "spec/InterpStack.tla", "serves_properties": ["C17"],
+             "kind_free_text": "TLA+ interpretation-stack machine (InterpFrames.tla, Trace_InterpStack.tla); replayed with real with-blocks by harness/stackdriver.py"},
             {"name": "Judge", "path": "spec/Judge.tla", "serves_properties": ["C02", "C08"],
              "kind_free_text": "TLA+ trace specification that consumes recorded events (rule firings, emitted terms) and decides them with the L1 denotation"},
         ],
